@@ -546,6 +546,14 @@ func runConfig(cfg childCfg, nConv int, replay []conversation) {
 			}
 			id++
 		}
+		if done == 0 && replay == nil {
+			// the deterministic boundary family goes first
+			for _, cv := range boundaryConversations(sd) {
+				cv.ID = id
+				id++
+				convs = append(convs, cv)
+			}
+		}
 		sem := make(chan struct{}, par)
 		var wg sync.WaitGroup
 		for _, cv := range convs {
